@@ -57,7 +57,7 @@ struct xvu_fmt_s xvu_fmt;
 struct xvu_strto_s { long l_val; long long ll_val; size_t l_used, ll_used; unsigned long l_calls, ll_calls; };   /* strtol / strtoll */
 struct xvu_strto_s xvu_strto;
 /* the control-protocol message recv(2) delivered last (fields read at their wire offsets when a FULL message arrived) */
-struct xvu_rx_s { _Bool full; int type; int rej_errno; int value_type; size_t value_len; size_t attrs_len; };
+struct xvu_rx_s { _Bool full; int type; int rej_errno; int value_type; size_t value_len; size_t attrs_len; uint8_t val_mc; };
 struct xvu_rx_s xvu_rx;
 struct xvu_cb_s { unsigned long calls; };                                       /* callbacks made (may wrap) */
 struct xvu_cb_s xvu_cb;
@@ -498,7 +498,7 @@ long long strtoll(const char *nptr, char **endptr, int base)
 #endif
 
 #ifdef XVU_XCMC_FD
-/* ---- on top of env/fd.h (included before this file, with socket and recv renamed to xv_fdh_socket / xv_fdh_recv):
+/* ---- on top of env/fd.h (included before this file, with socket, send and recv renamed to xv_fdh_*):
  * socket(2): TRUSTED(kernel).  env/fd.h's socket() has the C05 obligation "created SOCK_NONBLOCK", which is about the sockets of
  * libxcm.  libxcmctl is a BLOCKING client by design (it bounds its waits with SO_RCVTIMEO/SO_SNDTIMEO); its descriptor goes
  * into the same ghost table, non-blocking iff SOCK_NONBLOCK was asked for -- connect/send/recv on it then write xv_blocked,
@@ -508,24 +508,87 @@ int socket(int domain, int type, int protocol)
     xv_socket_calls++;
     return xv_new_fd((type & SOCK_NONBLOCK) != 0, (type & 0xf) == SOCK_SEQPACKET);
 }
-/* recv(2): env/fd.h's model (arbitrary record of arbitrary length, min(real, len) arbitrary bytes stored), plus a ghost copy of the
- * control-protocol fields of the record when a full struct ctl_proto_msg was stored (xvu_rx) -- what the peer, which is NOT
- * trusted, put there.  Fields are read by address, as scalars, at their wire offsets (cf. env/ctl_env.h XV_FLD). */
+/* send(2) / recv(2) of the control-protocol client.  TRUSTED(kernel).  Same semantics and the same ghost record (xv_send_*, xv_recv_*)
+ * as env/fd.h's models, which are renamed away: those read / havoc the caller's buffer at SYMBOLIC offsets, and the buffers of
+ * xcmc.c are 37 904-byte structs on the stack -- one byte at a symbolic offset of such an object costs ~5 M gates (the job did
+ * not finish in 15 minutes).  Here:
+ *   send: the byte at the arbitrary offset xv_j is recorded (xv_send_c) by a case split over the CONSTANT offsets 0..XVU_TX_HDR-1
+ *         (type, padding, the 64-byte name field); for xv_j beyond that xv_send_c is left 0 and xvu_tx_tracked is false
+ *         (contracts speak about tracked bytes only).
+ *   recv: an arbitrary record of arbitrary length `real`; the WHOLE buffer becomes arbitrary when real > 0 (the kernel stores
+ *         min(real, len) bytes and leaves the rest alone: making the rest arbitrary as well is an over-approximation); the
+ *         protocol fields of a full-size record are copied to xvu_rx from their constant offsets; xvu_rx.val_mc is the value
+ *         byte at offset xv_mc (the offset the memcpy model of env/base.h tracks), by case split over 0..511. */
+#define XVU_TX_HDR 72
+_Bool xvu_tx_tracked;
 #define XVU_FLD(T, base, off) (*(T *)((uint8_t *)(base) + (off)))
 #define XVU_OFF_ATTR offsetof(struct ctl_proto_msg, get_attr_cfm.attr)
+ssize_t send(int fd, const void *buf, size_t len, int flags)
+{
+    XV_FD_USE(fd, "C08 send() on a descriptor the library owns and has open");
+    __CPROVER_assert(len == 0 || __CPROVER_r_ok(buf, len), "send() buffer readable");
+    if (!xv_fdt.e[fd].nonblock && !(flags & MSG_DONTWAIT)) xv_blocked = 1;
+    xv_send_calls++; xv_send_fd = fd; xv_send_buf = buf; xv_send_len = len; xv_send_flags = flags;
+    xv_send_c = 0; xvu_tx_tracked = 0;
+    if (len >= XVU_TX_HDR && xv_j >= 0 && xv_j < XVU_TX_HDR) {
+        const uint8_t *b = buf; uint8_t c = 0;
+#define XVU_T1(k) if (xv_j == (k)) c = b[k]
+#define XVU_T8(k) XVU_T1(k); XVU_T1((k) + 1); XVU_T1((k) + 2); XVU_T1((k) + 3); XVU_T1((k) + 4); XVU_T1((k) + 5); XVU_T1((k) + 6); XVU_T1((k) + 7)
+        XVU_T8(0); XVU_T8(8); XVU_T8(16); XVU_T8(24); XVU_T8(32); XVU_T8(40); XVU_T8(48); XVU_T8(56); XVU_T8(64);
+        xv_send_c = c; xvu_tx_tracked = 1;
+    }
+    if (nondet_bool()) {
+        xv_errno = xv_any_errno();     /* EAGAIN (send timeout), EPIPE, ECONNRESET, ENOBUFS, EMSGSIZE, EINTR, ... */
+        xv_send_errno = xv_errno; xv_send_ret = -1;
+        return -1;
+    }
+    size_t n = len;
+    if (xv_fdt.e[fd].seqpacket) {
+        if (len > XV_DGRAM_MAX) { xv_errno = EMSGSIZE; xv_send_errno = xv_errno; xv_send_ret = -1; return -1; }
+    } else {
+        n = nondet_size_t();
+        __CPROVER_assume(n <= len && n <= 0x7ffff000UL);
+    }
+    xv_send_ret = (long)n;
+    return (ssize_t)n;
+}
 ssize_t recv(int fd, void *buf, size_t len, int flags)
 {
-    ssize_t n = xv_fdh_recv(fd, buf, len, flags);
+    XV_FD_USE(fd, "C08 recv() on a descriptor the library owns and has open");
+    __CPROVER_assert(len == 0 || __CPROVER_w_ok(buf, len), "recv() buffer writeable");
+    if (!xv_fdt.e[fd].nonblock && !(flags & MSG_DONTWAIT)) xv_blocked = 1;
+    xv_recv_calls++; xv_recv_fd = fd; xv_recv_buf = buf; xv_recv_len = len; xv_recv_flags = flags;
+    xv_recv_copied = 0; xv_recv_c = 0;
     xvu_rx.full = 0;
-    if (n == (ssize_t)sizeof(struct ctl_proto_msg) && len >= sizeof(struct ctl_proto_msg)) {
+    if (nondet_bool()) {
+        xv_errno = xv_any_errno();     /* EAGAIN (receive timeout), ECONNRESET, EINTR, ... */
+        xv_recv_errno = xv_errno; xv_recv_ret = -1;
+        return -1;
+    }
+    size_t real = nondet_size_t();
+    __CPROVER_assume(real <= XV_DGRAM_MAX);
+    size_t n = real < len ? real : len;
+    if (n > 0) __CPROVER_havoc_slice(buf, len);
+    xv_recv_copied = n;
+    xv_recv_ret = (xv_fdt.e[fd].seqpacket && (flags & MSG_TRUNC)) ? (long)real : (long)n;
+    if (n == sizeof(struct ctl_proto_msg)) {
         xvu_rx.full = 1;
         xvu_rx.type = XVU_FLD(int, buf, offsetof(struct ctl_proto_msg, type));
         xvu_rx.rej_errno = XVU_FLD(int, buf, offsetof(struct ctl_proto_msg, get_attr_rej.rej_errno));
         xvu_rx.value_type = XVU_FLD(int, buf, XVU_OFF_ATTR + offsetof(struct ctl_proto_attr, value_type));
         xvu_rx.value_len = XVU_FLD(size_t, buf, XVU_OFF_ATTR + offsetof(struct ctl_proto_attr, value_len));
         xvu_rx.attrs_len = XVU_FLD(size_t, buf, offsetof(struct ctl_proto_msg, get_all_attr_cfm) + offsetof(struct ctl_proto_get_all_attr_cfm, attrs_len));
+        xvu_rx.val_mc = 0;
+        if (xv_mc < CTL_ATTR_VALUE_MAX) {
+            const uint8_t *v = (const uint8_t *)buf + XVU_OFF_ATTR + offsetof(struct ctl_proto_attr, any_value); uint8_t c = 0;
+#define XVU_R1(k) if (xv_mc == (size_t)(k)) c = v[k]
+#define XVU_R8(k) XVU_R1(k); XVU_R1((k) + 1); XVU_R1((k) + 2); XVU_R1((k) + 3); XVU_R1((k) + 4); XVU_R1((k) + 5); XVU_R1((k) + 6); XVU_R1((k) + 7)
+#define XVU_R64(k) XVU_R8(k); XVU_R8((k) + 8); XVU_R8((k) + 16); XVU_R8((k) + 24); XVU_R8((k) + 32); XVU_R8((k) + 40); XVU_R8((k) + 48); XVU_R8((k) + 56)
+            XVU_R64(0); XVU_R64(64); XVU_R64(128); XVU_R64(192); XVU_R64(256); XVU_R64(320); XVU_R64(384); XVU_R64(448);
+            xvu_rx.val_mc = c;
+        }
     }
-    return n;
+    return (ssize_t)xv_recv_ret;
 }
 /* session objects: ut_malloc / ut_free of xcmc.c are renamed to these (counting wrappers around env/base.h's) */
 void *xvu_sess_malloc(size_t size) { xvu_sess_heap++; return ut_malloc(size); }
